@@ -122,13 +122,20 @@ def gen_cases(ctx):
     if not quick:
         mixed += [("mixed2d", {"w": w, "ms": ms}) for w in (3, 5, 7) for ms in (5, 3.4, 2.5)]
         mixed += [("mixed3d", {"w": 2, "ms": 1.5, "layers": 2})]
+    # scaled twins: the same meshes with the mesher's length coefficient 2^-20 (~1e-6) and 2^10: the partition
+    # arrays are coordinate-free, the K rows / energies / reactions are compared relative to their own scale
+    twins = [(k, dict(p_, coef=cf)) for (k, p_), cf in zip([meshes[0], mixed[0], meshes[-1]], [2.0 ** -20, 2.0 ** 10, 2.0 ** -20])]
+    if not quick:
+        twins += [(k, dict(p_, coef=2.0 ** -30)) for k, p_ in (meshes[1], mixed[-1])]
     cases = []
     cid = 0
-    for kind, params in meshes + mixed:
+    for kind, params in meshes + mixed + twins:
         if quick:
             nps = sorted(set([1, rng.choice([2, 3]), rng.choice([4, 5, 6]), rng.choice([7, 8, 9, 10, 11, 12])]))
             if kind.startswith("mixed"):
                 nps = sorted(set(nps + [3, 4]))
+            if "coef" in params:
+                nps = [rng.choice([2, 3]), rng.choice([4, 5])]
         else:
             nps = list(range(1, 13))
         for n in nps:
@@ -186,6 +193,17 @@ def gen_merge(ctx):
         cases.append({"id": i, "meshes": meshes, "mergePoints": rng.random() < 0.8, "unique": rng.random() < 0.5,
                       "relation": relation})
     cases += gen_merge_structured(ctx, len(cases))
+    # scaled twins of some lists: spacing 2^-23 (~1e-7) and 2^7 in physical units, far from Merge's ABSOLUTE
+    # tolerance 1e-12 (below a spacing of ~1e-12 distinct nodes are identified by documentation: not claimed)
+    import copy as _copy
+    twins = []
+    for c0 in rng.sample(cases, min(len(cases), 4 if ctx.tier == "quick" else 16)):
+        c1 = _copy.deepcopy(c0)
+        c1["id"] = len(cases) + len(twins)
+        c1["coord_scale"] = rng.choice([2.0 ** -20, 2.0 ** 10])
+        c1["relation"] = c0["relation"] + ":scaled"
+        twins.append(c1)
+    cases += twins
     for c in cases:
         # Mesh.coord is "global in its indexing only": rows of nodes no element group uses are never
         # written and read as (0, 0, 0) (documented in Mesh.coord) - that is the input Merge sees
